@@ -495,7 +495,7 @@ func genShowMeasurements(g *vfGen) Statement {
 	s := &ShowMeasurementsStatement{}
 	g.kw("SHOW")
 	g.kws("MEASUREMENTS")
-	switch vfChoice(5) {
+	switch g.pick(5) {
 	case 0:
 	case 1:
 		s.Database = g.onDB()
@@ -515,7 +515,7 @@ func genShowMeasurements(g *vfGen) Statement {
 		s.WildcardDatabase = true
 		s.RetentionPolicy = g.ident()
 	}
-	switch vfChoice(3) {
+	switch g.pick(3) {
 	case 0:
 	case 1:
 		g.kws("WITH", "MEASUREMENT")
